@@ -435,6 +435,11 @@ class Martingale(Lemma):
             cf2 = to_sp(vc.method(model, "log_characteristic_function", SpVal(t), -1j))
             vc.check_zero(nm + "::after-a-rate-update:characteristic-function-at-minus-i-is-the-new-forward", lambda: sp.simplify(sp.log(sp.simplify(cf2 / (spot * sp.exp((r2 - d) * t))))), samp_r)
             vc.check_zero(nm + "::after-a-rate-update:drift-coefficient-follows-the-new-rate", lambda: sp.simplify(to_sp(vc.method(model, "drift")) - (r2 - d + omega)), samp_r)
+            if regime["own_drift"]:
+                drift_before = to_sp(vc.method(model, "process_drift"))
+                vc.interp.setattr(model, "r", SpVal(r))
+                drift_orig = to_sp(vc.method(model, "process_drift"))
+                vc.check_zero(nm + "::after-a-rate-update:direct-simulation-drift-follows-the-new-rate", lambda: sp.simplify((drift_before - drift_orig) - (r2 - r)), samp_r)
             vc.interp.setattr(model, "r", SpVal(r))
         mean1 = to_sp(vc.method(model, "mean", SpVal(t)))
         vc.check_zero(nm + "::mean-of-S_t/S_0-is-exp((r-d)t)", lambda: sp.simplify(sp.log(sp.simplify(mean1 / sp.exp((r - d) * t)))), samp)
@@ -457,6 +462,11 @@ class Martingale(Lemma):
         got_cf = complex(m.log_characteristic_function(t=T, x=-1j, log_spot=0))
         info = {"model": repr(m), "T": T, "forward/S0": float(fwd), "characteristic_function_at_-i": [got_cf.real, got_cf.imag]}
         bad = abs(got_cf - fwd) > 1e-9
+        if "after-a-rate-update:direct-simulation" in clause:
+            d0 = float(m.process_drift())
+            m.r = m.r + 0.02
+            d1 = float(m.process_drift())
+            return (abs((d1 - d0) - 0.02) > 1e-12, {"model": repr(m), "process_drift_before": d0, "process_drift_after_r_plus_0.02": d1})
         if REGIMES[case]["own_drift"]:
             from scipy.integrate import quad
             nu = m.levy_triplet.nu
